@@ -236,6 +236,12 @@ class NestedState(State):
         finally:
             self._scope = []
 
+    def __getstate__(self):
+        # the scope is set while the state is being entered or exited; it is not part of the state's configuration
+        state = dict(self.__dict__)
+        state['_scope'] = []
+        return state
+
     @property
     def name(self):
         return self.separator.join(self._scope + [super(NestedState, self).name])
@@ -442,6 +448,18 @@ class HierarchicalMachine(Machine):
             queued=queued, prepare_event=prepare_event, finalize_event=finalize_event, model_attribute=model_attribute,
             model_override=model_override, on_exception=on_exception, on_final=on_final, **kwargs
         )
+
+    # A machine may be pickled while it is inside a (nested) scope, e.g. from a callback. The scope belongs to the
+    # event in progress, not to the machine: the copy starts at the global scope.
+    def __getstate__(self):
+        parent = getattr(super(HierarchicalMachine, self), "__getstate__", None)
+        state = parent() if parent is not None else None
+        state = dict(state) if isinstance(state, dict) else dict(self.__dict__)
+        if self._stack:
+            state['scoped'], state['states'], state['events'], state['prefix_path'] = self._stack[0]
+            state['_stack'] = []
+        state['_next_scope'] = None
+        return state
 
     def __call__(self, to_scope=None):
         if isinstance(to_scope, string_types):
